@@ -184,3 +184,56 @@ def scen_marshall(ctx, M):
     ctx.check('C12-leap-second-capped', z.second == 59)
     ctx.goal('utc' if utc else 'naive')
     return ()
+
+
+FX = 'oslo_utils.fixture'
+
+
+def load_sym_fx():
+    ld = env.Loader(env={'datetime': symdt.FakeDatetimeModule,
+                         'calendar': symdt.FakeCalendar,
+                         'iso8601': _NoIso, 'zoneinfo': _Zone},
+                    sym=[TU])
+    m = Mods()
+    m.fx = ld.load(FX)
+    m.tu = ld.load(TU)
+    m.sha = ld.sha
+    return m
+
+
+def load_real_fx():
+    m = Mods()
+    m.fx = env.import_real(FX)
+    m.tu = env.import_real(TU)
+    return m
+
+
+def scen_fixture(ctx, M):
+    """TimeFixture: setUp overrides the clock with the given instant, the
+    advance methods move it by exactly the given amount, cleanUp removes
+    the override"""
+    tu, fxm = M.tu, M.fx
+    now = ctx.int('now', LO, HI)
+    adv = ctx.int('adv_us', -365 * DAY, 365 * DAY)
+    adv_s = ctx.int('adv_s', -10 ** 7, 10 ** 7)
+    ctx.assume(AND(now + adv >= LO, now + adv <= HI,
+                   now + adv + adv_s * US >= LO,
+                   now + adv + adv_s * US <= HI))
+    fx = fxm.TimeFixture(mk_dt(ctx, now))
+    fx.setUp()
+    try:
+        ctx.check('C12-fixture-overrides',
+                  h.veq(us_of(ctx, tu.utcnow()) == now, True))
+        fx.advance_time_delta(symdt.timedelta(_us=adv) if ctx.sym
+                              else RD.timedelta(microseconds=adv))
+        ctx.check('C12-fixture-advance-delta',
+                  h.veq(us_of(ctx, tu.utcnow()) == now + adv, True))
+        fx.advance_time_seconds(adv_s)
+        ctx.check('C12-fixture-advance-seconds',
+                  h.veq(us_of(ctx, tu.utcnow()) == now + adv + adv_s * US,
+                        True))
+    finally:
+        fx.cleanUp()
+    ctx.check('C12-fixture-cleanup', tu.utcnow.override_time is None)
+    ctx.goal('done')
+    return ()
